@@ -10,7 +10,7 @@
    by the correspondence check only); so is the equality engine =
    specification (Den.v), which the check tests on generated programs. *)
 From Coq Require Import ZArith NArith List Bool String.
-From Dwgrep Require Import Radix Value Words Tree Engine Build EngineProofs.
+From Dwgrep Require Import Radix Value Words Tree Engine Build Quiet EngineProofs.
 Import ListNotations.
 Local Open Scope Z_scope.
 
@@ -41,6 +41,11 @@ Theorem C01_engine_stream : forall P blks, Forall quiet blks -> forall f env m a
   drains P blks f env m (LOrigin (Some b)) sA outsB mB cB sB /\ mB = m.
 Proof. exact engine_stream. Qed.
 
+(* the executable test the check evaluates on every chain the builder produces *)
+Theorem C01_quietb_quiet : forall m, quietb m = true -> quiet m.
+Proof. exact quietb_quiet. Qed.
+
+Print Assumptions C01_quietb_quiet.
 Print Assumptions C01_pull_invariant.
 Print Assumptions C01_pull_keeps_structure.
 Print Assumptions C01_engine_forgets.
